@@ -813,37 +813,20 @@ def isValue (st : ChoiceSt) : Bool :=
   | some c => c.isVal
   | none => false
 
+def setOut (n : Nat) (st : ChoiceSt) (i : Option Int) (a : Option Arg) (err : Out) : ChoiceSt × Out :=
+  match i with
+  | none => (st, err)
+  | some i => match setAt n st i a with
+    | some st' => (st', .unit)
+    | none => (st, err)
+
 def step (n : Nat) (st : ChoiceSt) : ChoiceOp → ChoiceSt × Out
-  | .setItemPos i a =>
-    (match setAt n st i (some a) with
-     | some st' => (st', .unit)
-     | none => (st, .lookupErr))
-  | .setItemName k a =>
-    (match posOf n k with
-     | none => (st, .lookupErr)
-     | some i => match setAt n st i (some a) with
-       | some st' => (st', .unit)
-       | none => (st, .lookupErr))
-  | .setPos i a =>
-    (match setAt n st i (some a) with
-     | some st' => (st', .unit)
-     | none => (st, .libErr))
-  | .setName k a =>
-    (match posOf n k with
-     | none => (st, .libErr)
-     | some i => match setAt n st i (some a) with
-       | some st' => (st', .unit)
-       | none => (st, .libErr))
-  | .setType k a =>
-    (match posOf n k with
-     | none => (st, .libErr)
-     | some i => match setAt n st i (some a) with
-       | some st' => (st', .unit)
-       | none => (st, .libErr))
-  | .setNone i =>
-    (match setAt n st i none with
-     | some st' => (st', .unit)
-     | none => (st, .libErr))
+  | .setItemPos i a => setOut n st (some i) (some a) .lookupErr
+  | .setItemName k a => setOut n st (posOf n k) (some a) .lookupErr
+  | .setPos i a => setOut n st (some i) (some a) .libErr
+  | .setName k a => setOut n st (posOf n k) (some a) .libErr
+  | .setType k a => setOut n st (posOf n k) (some a) .libErr
+  | .setNone i => setOut n st (some i) none .libErr
   | .clear => (⟨some [], none⟩, .unit)
   | .reset => (⟨none, none⟩, .unit)
   | .clone flag =>
@@ -1358,6 +1341,161 @@ def Inv (fields : List FK) (st : RecSt) : Prop :=
     ∀ (k : Nat) (d : Int), fields[k]? = some (FK.dflt d) → l[k]? ≠ some Comp.ph
 
 end Rec
+
+namespace OptionSpec
+
+/-- at most one (alternative, value): `sel`; the value is `none` after "select by touching".
+    `isObj` is False after `reset()`, `alloc` says whether the slots exist (it only shows in `==`) -/
+structure St where
+  isObj : Bool
+  alloc : Bool
+  sel : Option (Nat × Option Int)
+deriving DecidableEq, Repr, Inhabited
+
+def selComp (x : Option Int) : Comp :=
+  match x with
+  | some z => .val z
+  | none => .ph
+
+def setAt (n : Nat) (i : Int) (a : Option Arg) : Option St :=
+  match pyIdx n i, a with
+  | none, _ => none
+  | some k, none => some ⟨true, true, some (k, none)⟩
+  | some k, some (.py z) => some ⟨true, true, some (k, some z)⟩
+  | some k, some (.obj z) => some ⟨true, true, some (k, some z)⟩
+  | some _, some .bad => none
+
+def setOut (n : Nat) (s : St) (i : Option Int) (a : Option Arg) (err : Out) : St × Out :=
+  match i with
+  | none => (s, err)
+  | some i => match setAt n i a with
+    | some s' => (s', .unit)
+    | none => (s, err)
+
+/-- reading alternative `i`: the selected one is returned as it is; another one reads as nothing,
+    or — with `instantiate` — gets SELECTED (the library's "select by touching", DESIGN T3) -/
+def getAt (n : Nat) (s : St) (i : Int) (inst : Bool) : St × Out :=
+  match s.sel with
+  | some (k, x) =>
+    if (k : Int) = i then (s, .comp (selComp x))
+    else if pyIdx n i = some k then
+      (s, .comp (if inst then selComp x else match x with | some z => .val z | none => .hole))
+    else if !inst then (s, .comp .hole)
+    else match pyIdx n i with
+      | some j => (⟨true, true, some (j, none)⟩, .comp .ph)
+      | none => (s, .libErr)
+  | none =>
+    if !inst then (s, .comp .hole)
+    else match pyIdx n i with
+      | some j => (⟨true, true, some (j, none)⟩, .comp .ph)
+      | none => (s, .libErr)
+
+def posOf (n : Nat) (k : Nat) : Option Int := if k < n then some (k : Int) else none
+
+def step (n : Nat) (s : St) : ChoiceOp → St × Out
+  | .setItemPos i a => setOut n s (some i) (some a) .lookupErr
+  | .setItemName k a => setOut n s (posOf n k) (some a) .lookupErr
+  | .setPos i a => setOut n s (some i) (some a) .libErr
+  | .setName k a => setOut n s (posOf n k) (some a) .libErr
+  | .setType k a => setOut n s (posOf n k) (some a) .libErr
+  | .setNone i => setOut n s (some i) none .libErr
+  | .clear => (⟨true, false, none⟩, .unit)
+  | .reset => (⟨false, false, none⟩, .unit)
+  | .clone flag =>
+    if flag && s.sel.isSome then (⟨true, true, s.sel⟩, .unit) else (⟨true, false, none⟩, .unit)
+  | .len => (s, .nat (if s.sel.isSome then 1 else 0))
+  | .keys => (s, .names (s.sel.map (·.1)).toList)
+  | .contains k => (s, .bool (s.sel.map (·.1) = some k))
+  | .getItemPos i => let r := getAt n s i true; (r.1, r.2.asLookup)
+  | .getItemName k =>
+    (match posOf n k with
+     | none => (s, .lookupErr)
+     | some i => let r := getAt n s i true; (r.1, r.2.asLookup))
+  | .getPos i inst => getAt n s i inst
+  | .getName k inst =>
+    (match posOf n k with
+     | none => (s, .libErr)
+     | some i => getAt n s i inst)
+  | .getType k inst =>
+    (match posOf n k with
+     | none => (s, .libErr)
+     | some i => getAt n s i inst)
+  | .values => (s, .comps (s.sel.map (fun p => selComp p.2)).toList)
+  | .items => (s, .items (s.sel.map (fun p => (p.1, selComp p.2))).toList)
+  | .getComponent =>
+    (match s.sel with
+     | some (_, x) => (s, .comp (selComp x))
+     | none => (s, .libErr))
+  | .getChosenName =>
+    (match s.sel with
+     | some (k, _) => (s, .names [k])
+     | none => (s, .libErr))
+  | .pretty =>
+    if !s.isObj then (s, .libErr)
+    else (match s.sel with
+      | some (k, some z) => (s, .items [(k, .val z)])
+      | _ => (s, .items []))
+  | .eqTo v =>
+    if !s.isObj then (s, .libErr)
+    else if !s.alloc then (s, .bool false)
+    else (match s.sel with
+      | some (_, some z) => (s, .bool (z = v))
+      | _ => (s, .libErr))
+  | .encode => (s, .unit)
+
+def isValue (s : St) : Bool :=
+  match s.sel with
+  | some (_, some _) => true
+  | _ => false
+
+def abs (s : St) : Option Val :=
+  match s.sel with
+  | some (k, some z) => some (.choice k (.int z))
+  | _ => none
+
+def run (n : Nat) : St → List ChoiceOp → St × List Out
+  | s, [] => (s, [])
+  | s, op :: ops =>
+    let r := step n s op
+    let rest := run n r.1 ops
+    (rest.1, r.2 :: rest.2)
+
+end OptionSpec
+
+namespace Choice
+
+/-- the prototype state a CHOICE object stands for -/
+def absO (st : ChoiceSt) : OptionSpec.St :=
+  { isObj := st.comps.isSome
+    alloc := (match st.comps with | some (_ :: _) => true | _ => false)
+    sel := match st.cur, chosen st with
+      | some k, some c => some (k, c.get?)
+      | _, _ => none }
+
+def run (n : Nat) : ChoiceSt → List ChoiceOp → ChoiceSt × List Out
+  | st, [] => (st, [])
+  | st, op :: ops =>
+    let r := step n st op
+    let rest := run n r.1 ops
+    (rest.1, r.2 :: rest.2)
+
+/-- shape invariant: no component list and nothing chosen; an empty list and nothing chosen; or a
+    list padded to the number of alternatives in which exactly the chosen slot is not `noValue` -/
+def Inv (n : Nat) (st : ChoiceSt) : Prop :=
+  match st.comps, st.cur with
+  | none, none => True
+  | some [], none => True
+  | some l, some k =>
+    l.length = n ∧ k < n ∧ (∀ c, l[k]? = some c → c ≠ .hole) ∧ ∀ j, j ≠ k → j < n → l[j]? = some .hole
+  | _, _ => False
+
+/-- the number of alternatives an object holds -/
+def held (st : ChoiceSt) : Nat :=
+  match st.comps with
+  | none => 0
+  | some l => (l.filter (fun c => !c.isHole)).length
+
+end Choice
 
 /-! ## the NoValue dunder table -/
 
